@@ -75,6 +75,9 @@ def units(tier, seed):
     # CURIE delimiters that are special to string formatting, for |T| <= 2
     for ch in chunks(small, 4):
         us.append({"tier": tier, "seed": seed, "Ts": ch, "delims": ["%", "%3A", "%%", "{}", "%s"]})
+    from . import joint
+
+    us.extend(joint.sweep_units(tier))
     return us
 
 
@@ -134,9 +137,13 @@ def construct(recs, delim, mode, probe=None):
             for s in r.usyn:
                 conv.add_record(Record(prefix=r.prefix, uri_prefix=s), merge=True)
                 cur = m.records[i]
-                m.records[i] = mrec(cur.prefix, cur.uri_prefix, (), cur.usyn + (s,))
+                m.records[i] = mrec(cur.prefix, cur.uri_prefix, cur.psyn, cur.usyn + (s,))
                 if probe:
                     probe(conv, m)
+            for s in r.psyn:    # (only the sweep configurations have CURIE prefix synonyms)
+                conv.add_record(Record(prefix=s, uri_prefix=r.uri_prefix), merge=True)
+                cur = m.records[i]
+                m.records[i] = mrec(cur.prefix, cur.uri_prefix, cur.psyn + (s,), cur.usyn)
         return conv
     raise ValueError(mode)
 
@@ -206,6 +213,10 @@ def run_case(case, ctx=None):
     model = Model(recs, delim)
     Q = qstrings(b["query_len"])
     P = qstrings(b["probe_len"])
+    if "tokens" in case:   # breadth sweep (mc/sweeps.py): the queries are derived from the registered strings
+        from .. import sweeps
+
+        Q = P = sweeps.config_queries(model, case["tokens"], case.get("idents", sweeps.IDENTS))
     sep = case.get("sep")
     if sep:   # strings of the case are already written with sep; write the queries with it too
         Q = [q.replace(":", sep) for q in Q]
@@ -245,6 +256,9 @@ def run_case(case, ctx=None):
         if fails:
             return fails
     perms = list(it.permutations(range(len(recs))))
+    if len(recs) > 4:   # sweep configurations with many records: identity, reversal and rotations only
+        n = len(recs)
+        perms = [tuple(range(n)), tuple(reversed(range(n)))] + [tuple((i + k) % n for i in range(n)) for k in range(1, n)]
     for perm in perms:
         order = [recs[i] for i in perm]
         for mode in MODES:
@@ -295,6 +309,17 @@ def run_case(case, ctx=None):
 
 
 def run_unit(unit, ctx):
+    if unit.get("kind") == "sweep":
+        for case in unit["cases"]:
+            case = dict(case, tier=unit["tier"])
+            fails = run_case(case, ctx)
+            ctx.count("sweep_cases")
+            for f in fails[:2]:
+                c = dict(case)
+                if len(f) > 2:
+                    c["only"] = f[2]
+                ctx.violation(f[0], f[1], c)
+        return
     sep = unit.get("sep")
     for T in unit["Ts"]:
         if sep:
